@@ -47,6 +47,8 @@ const maxSecFit = math.MaxInt64 / 1000000000
 
 const sigFinding5 = "asduration-mixed-sign-overflow"
 
+var finding5Reported int
+
 // replayable input
 type input struct {
 	K    string `json:"k"`             // pair | dur | time | unix | nil
@@ -197,9 +199,16 @@ func checkPair(c *C, s int64, n int32) {
 	want := clamp(exact)
 	if as != want {
 		sig := sigAsDuration(s, n, as, exact, prod)
-		c.Check(false, fmt.Sprintf("AsDuration() = %d, exact value %s clamps to %d", as, exact, want), in, sig)
-		if sig != "" {
-			c.Hist("finding5")
+		if sig == sigFinding5 {
+			// known finding: every instance is counted, the first three are reported (vh stops a run after 200
+			// failures, which the crossed boundaries alone would exceed); any other mismatch is reported in full
+			c.Hist("finding5:" + sig)
+			if finding5Reported < 3 {
+				finding5Reported++
+				c.Check(false, "AsDuration() saturates although the exact value seconds*1e9+nanos is representable (seconds*1e9 overflows int64, nanos has the opposite sign)", in, sig)
+			}
+		} else {
+			c.Check(false, fmt.Sprintf("AsDuration() = %d, exact value %s clamps to %d", as, exact, want), in, "")
 		}
 	}
 	dc := docDurationClass(s, n)
